@@ -174,6 +174,42 @@ func opJInt(c *vh.Ctx, v int64, u uint64, unsigned bool) {
 	}
 }
 
+// opJBlob: a BLOB cell through the real writeArrowValue; decoded by encoding/json and then DuckDB's \\xHH text form.
+func opJBlob(c *vh.Ctx, blob []byte) {
+	b := array.NewBinaryBuilder(mem, arrow.BinaryTypes.Binary)
+	b.Append(blob)
+	a := b.NewArray()
+	txt := cellText(a, 0)
+	a.Release()
+	b.Release()
+	dec := "none"
+	var s string
+	if utf8.ValidString(txt) && json.Unmarshal([]byte(txt), &s) == nil {
+		if back, ok := duckBlobDecode(s); ok {
+			dec = hx(back)
+		}
+	}
+	c.Op("jblob "+hx(blob), hx([]byte(txt))+" dec="+dec)
+	if dec != hx(blob) {
+		c.Fail("json-cell-differs:binary", fmt.Sprintf("BLOB %x written as %q does not read back", blob, txt), "format=json type=binary value=x"+hx(blob))
+	}
+}
+
+// opJDecimal: a Decimal128 cell through the real writeArrowValue.
+func opJDecimal(c *vh.Ctx, v *big.Int, prec, scale int32) {
+	b := array.NewDecimal128Builder(mem, &arrow.Decimal128Type{Precision: prec, Scale: scale})
+	b.Append(decimal128.FromBigInt(v))
+	a := b.NewArray()
+	txt := cellText(a, 0)
+	a.Release()
+	b.Release()
+	c.Op(fmt.Sprintf("jdecimal %s %d", v.String(), scale), txt)
+	t := tcell{kind: "dec", i: v, scale: int(scale)}
+	if txt != `"`+decText(t)+`"` {
+		c.Fail("json-cell-differs:decimal", fmt.Sprintf("decimal %s (scale %d) written as %s", v, scale, txt), fmt.Sprintf("format=json type=decimal value=%s/%d", v, scale))
+	}
+}
+
 func opJF64(c *vh.Ctx, bits uint64) {
 	b := array.NewFloat64Builder(mem)
 	b.Append(math.Float64frombits(bits))
@@ -419,6 +455,31 @@ func scalarOps(c *vh.Ctx, r *vh.Rand) {
 		opJF32(c, 0x7f800000|uint32(r.U64())&0x807fffff)
 	}
 	opJLit(c)
+	// BLOB cells: every single byte, corpus, random; Decimal128 cells: edges of several (precision, scale)
+	for b := 0; b < 256; b++ {
+		opJBlob(c, []byte{byte(b)})
+	}
+	opJBlob(c, []byte{})
+	for _, s := range edgeStrings {
+		opJBlob(c, []byte(s))
+	}
+	for _, s := range invalidUTF8 {
+		opJBlob(c, []byte(s))
+	}
+	for i := 0; i < nRand; i++ {
+		opJBlob(c, randBytes(r))
+	}
+	p38 := new(big.Int).Exp(big.NewInt(10), big.NewInt(38), nil)
+	hmax, _ := new(big.Int).SetString("170141183460469231731687303715884105727", 10)
+	for _, sc := range []int32{0, 1, 2, 10, 37, 38} {
+		for _, v := range []*big.Int{big.NewInt(0), big.NewInt(1), big.NewInt(-1), big.NewInt(5), big.NewInt(-12345), big.NewInt(math.MaxInt64), big.NewInt(math.MinInt64),
+			new(big.Int).Sub(p38, big.NewInt(1)), new(big.Int).Neg(new(big.Int).Sub(p38, big.NewInt(1))), hmax, new(big.Int).Neg(hmax)} {
+			opJDecimal(c, v, 38, sc)
+		}
+	}
+	for i := 0; i < nRand; i++ {
+		opJDecimal(c, randDecimal(r, 38), 38, int32(r.Intn(39)))
+	}
 	c.Tag("ops:jscalars")
 	// --- msgpack integers: every size-class boundary, all widths incl. min/max
 	for _, v := range edgeI64 {
@@ -635,7 +696,7 @@ func envelopeOp(c *vh.Ctx, m *monitor, r *vh.Rand) {
 					b.(*array.StringBuilder).Append(v)
 					rowsTxt[i][j] = hx([]byte(v))
 				case 'Y':
-					v := []byte(randString(r))
+					v := randBytes(r)
 					if len(v) == 0 {
 						v = []byte{}
 					}
